@@ -78,4 +78,28 @@ func (ctx *SigningContext) deriveSigningKey() (k []byte)
   ghost at call hmacDigest: gHPrev := ref(r)
   ghost at call hmacDigest: gHCalls := gHCalls + 1
   invariant[1] gHChain && gHCalls == idx$1 + 1 && ref(key) == gHPrev && key != nil
+
+// ---- C06: the access keys a Validator knows are exactly the configured ones ----
+// CreateFromSpec (called by Validator.reload) hands the configured accessKeys map itself to the signer as its key
+// store - no entry more (the signer's own signing credential, an empty id, ...), none less - and installs no
+// store when no access key is configured
+func (signer *Signer) IgnoreHeader(headers []string) (r *Signer)
+  trusted
+  requires signer != nil
+  modifies allof("map<string,bool>#dom"), allof("map<string,bool>#val"), allof("map<string,bool>#card")
+  ensures r == signer
+func (signer *Signer) SetHeaderHoisting(hh *HeaderHoisting) (r *Signer)
+  trusted
+  flag allocates
+  requires signer != nil && hh != nil
+  modifies hh.disallowed, signer.headerHoisting, allof("map<string,bool>#dom"), allof("map<string,bool>#val"), allof("map<string,bool>#card")
+  ensures r == signer
+func CreateFromSpec(spec *Spec) (s *Signer)
+  flag allocates
+  requires spec != nil
+  modifies allof("util/signer.HeaderHoisting.disallowed"), allof("util/signer.Signer.headerHoisting"), allof("map<string,bool>#dom"), allof("map<string,bool>#val"), allof("map<string,bool>#card")
+  ensures s != nil && fresh(s)
+  ensures the-known-access-keys-are-exactly-the-configured-ones: len(spec.AccessKeys) > 0 ==> ifaceTyp(s.accessKeyStore) == typeTag("idSecretMap") && ifaceVal(s.accessKeyStore) == ref(spec.AccessKeys)
+  ensures no-configured-key-no-store: len(spec.AccessKeys) == 0 ==> s.accessKeyStore == nil
+  ensures the-configured-keys-are-only-read: domOf(spec.AccessKeys) == old(domOf(spec.AccessKeys)) && valsOf(spec.AccessKeys) == old(valsOf(spec.AccessKeys))
 @*/
